@@ -711,6 +711,12 @@ var floodSalt int64
 // patternFlood makes the process meet n patterns it has never seen.
 func patternFlood(n int) {
 	salt := atomic.AddInt64(&floodSalt, 1)
+	if salt > 120 {
+		// the engine keeps every pattern it has met for the life of the
+		// process: a long campaign floods a hundred times, not ten thousand
+		// (gigabytes of compiled patterns made the thorough tier time out)
+		return
+	}
 	r := eng.NewRunner(fmt.Sprintf("i = 0; hits = 0; while ( i < %d ) { if ( match(\"zq%dx7\", \"^zq%dx\" + string(i) + \"$\") ) { hits++; } i++; } return hits;", n, salt, salt))
 	ctx, cancel := context.WithTimeout(context.Background(), 30*time.Second)
 	defer cancel()
